@@ -9,6 +9,7 @@ import re
 
 BLANKS = b" \t\x0b\x0c"
 OPENFIX = True     # which rule of Multipart.tla the code implements for 'delimiter text present, no delimiter line'
+PREFIX = True      # ... and for the first delimiter (see Multipart.tla PreFix)
 
 
 def sym(b):
@@ -180,7 +181,8 @@ def gen_form(rnd, boundary, max_parts=6, max_len=700, delim_text=False, extras=F
     form, body, spans, names = [], bytearray(), [], []
     pre = b""
     if extras and rnd.random() < 0.4:
-        pre = rnd.choice([b"This is the preamble.", b"x", b"line one\r\nline two", b"- - -", b"\r\n"])
+        pre = rnd.choice([b"This is the preamble.", b"x", b"line one\r\nline two", b"- - -", b"\r\n", b"parts are separated by --" + boundary,
+                          b"the last line is --" + boundary + b"--", b"--" + boundary + b"x", b"a\r\nb --" + boundary + b" \t"])
         body += pre + b"\r\n"
     for i in range(rnd.randint(0, max_parts)):
         kind = "file" if rnd.random() < 0.4 else "field"
@@ -301,7 +303,7 @@ def long_sessions(ctx, wd, n, rnd, pid, hold_only=False):
         total_ev += sum(len(t["events"]) for t in traces)
         inv = ["THold"] if hold_only else ["TPrefixOK", "TExact", "THold"]
         acc, rej = tracecheck.validate(wd, "TraceMultipart", traces, invariants=inv,
-                                       constants=dict(Bnd=Session(B).bnd(), Forms=frozenset(), Preambles=frozenset(), MaxChunk=0, Limits=frozenset(), HoldFix=True, OpenFix=OPENFIX))
+                                       constants=dict(Bnd=Session(B).bnd(), Forms=frozenset(), Preambles=frozenset(), MaxChunk=0, Limits=frozenset(), HoldFix=True, OpenFix=OPENFIX, PreFix=PREFIX))
         ctx.traces_validated += acc
         for tid, name, st in tracecheck.validate.last_invariant_failures:
             s, form, spans, mode, whole, mc, body = recs[tid]
@@ -391,7 +393,7 @@ def pytest_sessions(ctx, wd, repo, verif):
         if any(b in (13, 10) or b in BLANKS for b in B):
             continue
         acc, rej = tracecheck.validate(wd, "TraceMultipart", traces, invariants=[],
-                                       constants=dict(Bnd=Session(B).bnd(), Forms=frozenset(), Preambles=frozenset(), MaxChunk=0, Limits=frozenset(), HoldFix=True, OpenFix=OPENFIX))
+                                       constants=dict(Bnd=Session(B).bnd(), Forms=frozenset(), Preambles=frozenset(), MaxChunk=0, Limits=frozenset(), HoldFix=True, OpenFix=OPENFIX, PreFix=PREFIX))
         ctx.traces_validated += acc
         n += len(traces)
         ctx.count(len(traces))
